@@ -36,6 +36,16 @@ Definition u32_of_id (i : tagid) : N := i.            (* value.0 *)
 Definition tagtype_of_id (i : tagid) : tagtype := tagtype_of_u32 (u32_of_id i).
 Definition id_of_tagtype (t : tagtype) : tagid := id_of_u32 (u32_of_tagtype t).
 
+(* TagType::val(), TagTypeId::new(), the derived PartialEq of TagType (structural) *)
+Definition tagtype_val (t : tagtype) : N := u32_of_tagtype t.
+Definition id_new (v : N) : tagid := v.
+Definition tagtype_eqb (a b : tagtype) : bool :=
+  match a, b with
+  | Custom x, Custom y => x =? y
+  | Custom _, _ | _, Custom _ => false
+  | _, _ => u32_of_tagtype a =? u32_of_tagtype b
+  end.
+
 (* the six PartialEq impls *)
 Definition eq_type_id (t : tagtype) (i : tagid) : bool := u32_of_tagtype t =? u32_of_id i.
 Definition eq_id_type (i : tagid) (t : tagtype) : bool := eq_type_id t i.
